@@ -428,6 +428,30 @@ def m_index_range(ctx):
 
 @M.reg_re(r"^core::array::equality::|^core::slice::cmp::|^alloc::vec::partial_eq::|<impl core::cmp::PartialEq<&B> for &A>::(eq|ne)$|<impl core::cmp::PartialEq<&mut B> for &mut A>::(eq|ne)$|^core::tuple::<impl core::cmp::PartialEq for |^<core::option::Option<T> as core::cmp::PartialEq>::eq$|^core::str::traits::<impl core::cmp::PartialEq")
 def m_opaque_eq(ctx):
+    """Equality of compound values is not tracked, except through the lengths of two sequences:
+    different lengths => not equal; both empty => equal; equal => same length (conditional)."""
+    S = ctx.S
+    ne = ctx.r["def"].endswith("::ne")
+    if len(ctx.args) == 2:
+        def through(v, tag):
+            for n in range(3):
+                if isinstance(v, Ref) and v.cell is not None:
+                    v = ctx.deref(v, tag + str(n))
+                else:
+                    break
+            return v
+
+        qa, qb = through(ctx.args[0], "eqa"), through(ctx.args[1], "eqb")
+        if isinstance(qa, (Seq, Arr)) and isinstance(qb, (Seq, Arr)):
+            la, lb = S.term(len_sym(ctx, qa)), S.term(len_sym(ctx, qb))
+            r = S.decide_cmp("Eq", la, lb)
+            if r is False:
+                return Scalar(ctx.I.const_sym(1 if ne else 0, (0, 1), S))
+            if r is True and S.eval(la) == D.point(0):
+                return Scalar(ctx.I.const_sym(0 if ne else 1, (0, 1), S))
+            d = la.sub(lb)
+            same = Delta({}, [d, d.scale(-1)])
+            return bool_top(ctx, when={(0 if ne else 1): same})
     return bool_top(ctx)
 
 
